@@ -1080,64 +1080,105 @@ fn scheduler_run<F: Fn() + Send + Sync + 'static>(sched: Sched, seed: u64, ps: &
 
 /// Run the scenario.  `order = None`: one thread per request list under the given scheduler, tap on.
 /// `order = Some(seq)`: sequentially in one thread, `seq` = thread index of each successive request.
+struct Worker {
+    child: std::process::Child,
+    stdin: std::process::ChildStdin,
+    stdout: std::io::BufReader<std::process::ChildStdout>,
+}
+
+thread_local! {
+    static WORKER: RefCell<Option<Worker>> = RefCell::new(None);
+}
+
+fn spawn_worker() -> Option<Worker> {
+    let exe = std::env::current_exe().ok()?;
+    let mut child = std::process::Command::new(exe)
+        .arg("--worker")
+        .stdin(std::process::Stdio::piped())
+        .stdout(std::process::Stdio::piped())
+        .stderr(std::process::Stdio::null())
+        .spawn()
+        .ok()?;
+    let stdin = child.stdin.take()?;
+    let stdout = std::io::BufReader::new(child.stdout.take()?);
+    Some(Worker { child, stdin, stdout })
+}
+
+/// Every run happens in a separate worker process (`harness-c20 --worker`, one request per line): a
+/// run that ABORTS the process — a panic while another panic unwinds, e.g. an arithmetic overflow under
+/// a lock followed by a destructor that needs the same lock — is an outcome to report, not the end of
+/// the check.  The worker is restarted after an abort.
 pub fn run_scenario(sc: &Scenario, sched: Sched, seed: u64, order: Option<Vec<usize>>) -> RunResult {
+    use std::io::{BufRead, Write};
     if std::env::var("VERIF_C20_NOFORK").is_ok() {
         return run_scenario_inproc(sc, sched, seed, order);
     }
-    // Every run happens in a forked child (the harness is single-threaded: shuttle's threads are
-    // coroutines): a run that ABORTS the process — a panic while another panic unwinds, e.g. an
-    // arithmetic overflow under a lock followed by a destructor that needs the same lock — is an
-    // outcome to report, not the end of the check.
-    unsafe {
-        let mut fds = [0i32; 2];
-        if libc::pipe(fds.as_mut_ptr()) != 0 {
-            return run_scenario_inproc(sc, sched, seed, order);
+    let sname = match sched {
+        Sched::Pct => "pct",
+        Sched::Random => "random",
+        Sched::Preempt => "preempt",
+    };
+    let mut lines = scenario_lines(sc);
+    lines.push(format!("run {} {}", sname, seed));
+    let req = serde_json::json!({ "ops": lines, "order": order }).to_string();
+    WORKER.with(|w| {
+        let mut w = w.borrow_mut();
+        if w.is_none() {
+            *w = spawn_worker();
         }
-        let pid = libc::fork();
-        if pid < 0 {
-            libc::close(fds[0]);
-            libc::close(fds[1]);
-            return run_scenario_inproc(sc, sched, seed, order);
-        }
-        if pid == 0 {
-            libc::close(fds[0]);
-            let r = run_scenario_inproc(sc, sched, seed, order);
-            let js = serde_json::to_vec(&r).unwrap_or_default();
-            let mut off = 0usize;
-            while off < js.len() {
-                let n = libc::write(fds[1], js[off..].as_ptr() as *const libc::c_void, js.len() - off);
-                if n <= 0 {
-                    break;
-                }
-                off += n as usize;
+        let wk = match w.as_mut() {
+            Some(x) => x,
+            None => return run_scenario_inproc(sc, sched, seed, order),
+        };
+        let mut resp = String::new();
+        let ok = wk.stdin.write_all(req.as_bytes()).is_ok()
+            && wk.stdin.write_all(b"\n").is_ok()
+            && wk.stdin.flush().is_ok()
+            && wk.stdout.read_line(&mut resp).map(|n| n > 0).unwrap_or(false);
+        if ok {
+            if let Ok(r) = serde_json::from_str::<RunResult>(&resp) {
+                return r;
             }
-            libc::close(fds[1]);
-            libc::_exit(0);
         }
-        libc::close(fds[1]);
-        let mut buf = Vec::new();
-        let mut chunk = [0u8; 65536];
-        loop {
-            let n = libc::read(fds[0], chunk.as_mut_ptr() as *mut libc::c_void, chunk.len());
-            if n <= 0 {
-                break;
-            }
-            buf.extend_from_slice(&chunk[..n as usize]);
+        // the worker died on this request
+        let status = wk.child.wait().map(|s| format!("{:?}", s)).unwrap_or_default();
+        *w = None;
+        RunResult {
+            completed: false,
+            failure: Some(format!(
+                "process aborted ({}): a request panicked while another panic was unwinding",
+                status
+            )),
+            ..Default::default()
         }
-        libc::close(fds[0]);
-        let mut status = 0i32;
-        libc::waitpid(pid, &mut status, 0);
-        match serde_json::from_slice::<RunResult>(&buf) {
-            Ok(r) if libc::WIFEXITED(status) && libc::WEXITSTATUS(status) == 0 => r,
-            _ => RunResult {
-                completed: false,
-                failure: Some(format!(
-                    "process aborted (wait status {:#x}): a request panicked while another panic was unwinding",
-                    status
-                )),
-                ..Default::default()
-            },
-        }
+    })
+}
+
+/// `harness-c20 --worker`: executes one run per input line, prints one JSON result per line
+pub fn worker_loop() {
+    use std::io::{BufRead, Write};
+    std::panic::set_hook(Box::new(|_| {}));
+    let stdin = std::io::stdin();
+    let stdout = std::io::stdout();
+    for line in stdin.lock().lines() {
+        let line = match line {
+            Ok(l) => l,
+            Err(_) => break,
+        };
+        let v: serde_json::Value = match serde_json::from_str(&line) {
+            Ok(v) => v,
+            Err(_) => break,
+        };
+        let ops: Vec<String> = v["ops"].as_array().map(|a| a.iter().filter_map(|x| x.as_str().map(|s| s.to_string())).collect()).unwrap_or_default();
+        let order: Option<Vec<usize>> = v["order"].as_array().map(|a| a.iter().filter_map(|x| x.as_u64().map(|n| n as usize)).collect());
+        let r = match parse_case(&ops) {
+            Some((sc, sched, seed, _)) => run_scenario_inproc(&sc, sched, seed, order),
+            None => RunResult { completed: false, failure: Some("worker: malformed request".into()), ..Default::default() },
+        };
+        let mut out = stdout.lock();
+        let _ = out.write_all(serde_json::to_string(&r).unwrap_or_default().as_bytes());
+        let _ = out.write_all(b"\n");
+        let _ = out.flush();
     }
 }
 
